@@ -28,7 +28,10 @@ def impl_batch(case):
                 rule = shared.setdefault(("se", z), SimultaneousEating(zero_indexed=z))
                 if it.get("pre_speeds"):
                     rule.bistochastic(prof, np.array([float(Fraction(s)) for s in it["pre_speeds"]]))
-                X = rule.bistochastic(prof, np.array([float(Fraction(s)) for s in it["speeds"]]))
+                sp = np.array([float(Fraction(s)) for s in it["speeds"]])
+                if it.get("speed_dtype"):
+                    sp = sp.astype(it["speed_dtype"])       # integer speeds stored in an integer array (possibly a narrow one)
+                X = rule.bistochastic(prof, sp)
             out.append({"X": [[fr(Fraction(float(x))) for x in row] for row in X]})
         except Exception as e:  # noqa
             out.append({"exc": type(e).__name__, "msg": str(e)[:200]})
@@ -44,7 +47,7 @@ def lean_line(it):
 def judge(R, it, res, ans):
     P, speeds = it["P"], it["speeds"]
     n = len(P)
-    inp = {"P": P, "speeds": speeds, "probabilistic_serial": bool(it.get("ps")), "pre_speeds": it.get("pre_speeds")}
+    inp = {"P": P, "speeds": speeds, "probabilistic_serial": bool(it.get("ps")), "pre_speeds": it.get("pre_speeds"), "speed_dtype": it.get("speed_dtype")}
     if "exc" in res or "hang" in res:
         R.violation("property_violation", "terminates without raising", ENTRY, inp, impl_output=res, oracle="raised/hang")
         return
@@ -125,10 +128,19 @@ def run(R):
             s = R.rng.choice(SPEEDS)
             speeds = [s] * n
         elif mode == 2:
-            speeds = [str(R.rng.randint(1, 4)) for _ in range(n)]
+            hi = R.rng.choice([4, 4, 60, 120])
+            speeds = [str(R.rng.randint(1, hi)) for _ in range(n)]
         else:
             speeds = [R.rng.choice(SPEEDS) for _ in range(n)]
+        if R.rng.random() < 0.15:
+            # nearly equal speeds: agents become full (and items run out) at times that differ by 1e-5 .. 1e-7
+            speeds = [R.rng.choice(["1", "99999/100000", "100001/100000", "999999/1000000", "9999999/10000000"]) for _ in range(n)]
+            mode = 4
+            R.count("nearly_equal_speeds")
         it = {"P": P, "speeds": speeds}
+        if mode == 2 and R.rng.random() < 0.6:
+            it["speed_dtype"] = R.rng.choice(["int8", "int16", "int32", "int64"])
+            R.count("integer_speed_array:" + it["speed_dtype"])
         if R.rng.random() < 0.3:      # the same rule object is first used with other speeds on the same profile
             it["pre_speeds"] = [R.rng.choice(SPEEDS) for _ in range(n)]
         items.append(it)
@@ -146,4 +158,5 @@ def run(R):
 
 def replay(R, rep):
     inp = rep["input"]
-    run_items(R, [{"P": inp["P"], "speeds": inp["speeds"], "ps": inp.get("probabilistic_serial", False), "pre_speeds": inp.get("pre_speeds")}])
+    run_items(R, [{"P": inp["P"], "speeds": inp["speeds"], "ps": inp.get("probabilistic_serial", False), "pre_speeds": inp.get("pre_speeds"),
+                   "speed_dtype": inp.get("speed_dtype")}])
